@@ -82,7 +82,7 @@ def swarm_cfg(rng, nclients=None, entry=None, long_latency=True):
         "entry": entry or rng.choice(["bare", "twisted", "udpserver"]),
         "latency": lat,
         "jitter": rng.choice([0.0, 0.0, 0.002, 0.02, 0.08, 0.2]),
-        "reactor_lag": rng.choice([0.0, 0.0, 0.001, 0.01]),
+        "reactor_lag": rng.choice([0.0, 0.0, 0.001, 0.01, 0.03]),
         "wake_lag": rng.choice([0.0, 0.0, 0.00005, 0.002, 0.02]),
         "instr_cost": rng.choice([1e-6, 1e-6, 5e-6, 2e-5]),
         "server": {"interval": interval, "configure_after_construction": rng.random() < 0.3,
@@ -378,12 +378,11 @@ class FragExpiryProbe(Monitor):
                     complete = len(f1) >= (c0 or 0)
                     if not complete:
                         # context gone although fragments are still missing: purged right after this fragment
-                        if len(f1) > len(f0):
-                            idle = 0.0
-                        else:
-                            last = mon.progress.get((cn, fid))
-                            idle = now - last if last is not None else 1e9
-                        mon._purge(world, cn, fid, len(f1), c0, idle, "own")
+                        last = mon.progress.get((cn, fid))
+                        idle = now - last if last is not None else (0.0 if fid not in before else 1e9)
+                        # a fragment that ADVANCES the message restarts its timer first (bd9dabe): if such a fragment
+                        # nevertheless purges its own context, that is not the known idle-purge finding
+                        mon._purge(world, cn, fid, len(f1), c0, idle, "own-new-fragment" if len(f1) > len(f0) else "own")
                     mon.progress.pop((cn, fid), None)
             for k, (f, c) in before.items():
                 if k != fid and k not in after:
@@ -407,6 +406,8 @@ class FragExpiryProbe(Monitor):
         if not mine:
             return "cause=unknown", []
         how = "idle" if all(p[6].startswith("idle") for p in mine) else "while-progressing"
+        if any(p[6].endswith("own-new-fragment") for p in mine):
+            how = "by-its-own-advancing-fragment"
         return "cause=receiver-purged-incomplete-fragment-context:" + how, \
             [(round(p[0], 3), p[2], p[3], p[4], round(p[5], 3), p[6]) for p in mine[:4]]
 
